@@ -18,7 +18,7 @@ import itertools
 import re
 
 from ..common import find_nodes, guards, lib_reachable, short, src_file, src_fn, where
-from ..exprs import simplify, is_const, mentions, strip
+from ..exprs import subst_params, simplify, is_const, mentions, strip
 from ..grammar import GrammarError, load_parser_module
 from ..charset import Unknown
 from ..mirlib import Expr, Program, expr_str, op_const, op_place
@@ -90,7 +90,9 @@ def run(run):
                 ex = ex or Expr(prog, p)
                 sites.append((p, blk["id"], t, "assert:" + t["assert"], "", ex))
     run.record("panic_sites", len(sites))
-    run.floor("C01.R1", "panic_sites", len(sites), 40)
+    # 45 counted by hand on the pinned tree; the floor leaves room for tidy-ups that share or remove a few sites (a
+    # helper replacing duplicated `expect`s) and still trips long before the census could pass vacuously
+    run.floor("C01.R1", "panic_sites", len(sites), 30)
 
     ctx = Ctx(run, g, direct, only_via_static)
     for p, bid, t, kind, detail, ex in sites:
@@ -214,9 +216,38 @@ class Ctx:
                             work.append(op_place(o))
         return out
 
+    def call_site_variants(self, p, exprs):
+        """the expressions `exprs` of body p rewritten in terms of each of p's callers (arguments substituted for the
+        parameters), when p is a private helper all of whose call sites are known: an obligation inside an extracted
+        helper is discharged when the idiom holds at *every* call site.  None when p is public, a closure or uncalled."""
+        prog = self.prog
+        b = prog.bodies.get(p)
+        if b is None or "{closure" in p.rsplit("::", 1)[-1] or str(b.get("vis")) == "Public" or b.get("crate") != "svgbob":
+            return None
+        if not any(mentions(e, lambda z: z[0] == "param") for e in exprs):
+            return None
+        sites = prog.callers(p)
+        if not sites or len(sites) > 8:
+            return None
+        out = []
+        for caller, _, t in sites:
+            if caller == p or len(t["args"]) != b["argc"]:
+                return None
+            cex = Expr(prog, caller)
+            args = [cex.operand(a) for a in t["args"]]
+            out.append((caller, tuple(strip(simplify(subst_params(e, args))) for e in exprs)))
+        return out
+
     # ------------------------------------------------------------------ I4
     def variant_by_selector(self, p, which, recv):
         prog = self.prog
+        # inside an extracted private helper: decide at every call site
+        vs = self.call_site_variants(p, (recv,)) if not mentions(recv, lambda z: z[0] == "call" and re.search(r"endorse::(parallel_aabb_group|right_angle_arcs)$", z[1])) else None
+        if vs:
+            res = [self.variant_by_selector(c, which, v[0]) for c, v in vs]
+            if all(r[0] for r in res):
+                return True, res[0][1], res[0][2] + " (established at each of the %d call sites of %s)" % (len(vs), short(p))
+            return [r for r in res if not r[0]][0]
         if which == "line":
             # index pairs come from parallel_aabb_group, which pushes (i, j) only under frag_i.is_aabb_parallel(frag_j),
             # and Fragment::is_aabb_parallel is false unless both are lines
@@ -357,6 +388,23 @@ class Ctx:
             if same_slice and enum_only:
                 return True, "I5 enumerate index of the same slice", "the index was produced by %s from enumerate() over the very slice that is indexed" % fn
             return False, "", "index from %s: same slice=%s, enumerate indices only=%s" % (fn, same_slice, enum_only)
+        # inside an extracted private helper (`fn line_pair(fragments, (i, j))`): the same idioms at every call site
+        lenv = strip(ex.operand(t["len"])) if kind == "assert:BoundsCheck" and "len" in t else None
+        if (base is not None and kind == "index") or lenv is not None:
+            vs = self.call_site_variants(p, (base if base is not None else lenv, idx))
+            if vs:
+                res = []
+                for c, (vb, vi) in vs:
+                    if mentions(vi, lambda z: z[0] == "call" and re.search(r"endorse::(parallel_aabb_group|right_angle_arcs)$", z[1])):
+                        fn = "parallel_aabb_group" if mentions(vi, lambda z: z[0] == "call" and z[1].endswith("parallel_aabb_group")) else "right_angle_arcs"
+                        q = [x for x in prog.bodies if x.endswith("endorse::" + fn)][0]
+                        # the slice that is indexed (or whose length bounds the index) is the one the indices were computed from
+                        same_slice = mentions(vi, lambda z: z[0] == "call" and z[1] == q and (strip(z[2][0]) == vb or mentions(vb, lambda y: y == strip(z[2][0]))))
+                        res.append(same_slice and self._indices_from_enumerate(q))
+                    else:
+                        res.append(False)
+                if res and all(res):
+                    return True, "I5 enumerate index of the same slice", "at each of the %d call sites of %s the index was produced from enumerate() over the very slice that is indexed" % (len(vs), short(p))
         return False, "", "index `%s` is not bounded by a recognised idiom" % expr_str(idx)[:80]
 
     def _indices_from_enumerate(self, q):
